@@ -16,6 +16,17 @@ spec -> CPython -> pytype: every exported hierarchy is
   mix   source classes in the reader whose bases are the stub classes.
 code -> spec: TraceC10.tla replays each hierarchy with C3's own actions and judges all recorded
 observations (ORACLE lines: CPython differs from the spec; BAD lines: pytype differs).
+
+Two further families (kinds) of cases come from the same spec:
+  gen   class statements whose bases are generic classes under several spellings (`K`, `K[int]`,
+        `K[str]`, `K[T]`, a trailing `Generic[T]`): the linearisation and the duplicate-base test
+        work on the origins; observed at levels py, src, mix (statements + reads) and stub (reads
+        through the stub classes of the statements that succeed);
+  hist  attribute histories: class statements (the body may define `tag`), `K.tag = v` on an
+        existing class and reads of `tag` through a class / an old instance / a fresh instance,
+        in any order; CPython executes the program, pytype analyses it, and TLC judges every read
+        against the definition the spec's Read action recorded (first class of the MRO whose
+        dictionary has `tag` at that moment).
 """
 import argparse
 import itertools
@@ -34,21 +45,35 @@ import pyt  # noqa: E402
 import tlc  # noqa: E402
 
 PID = "C10"
-MODEL_INVS = ("TypeOK", "MachineIsFunction", "LawsHold", "MergeInv", "LookupSane")
+MODEL_INVS = ("TypeOK", "MachineIsFunction", "LawsHold", "MergeInv", "LookupSane", "HistInv")
 SCRATCH = os.path.join(common.VERIF, "build", "c10")
 NT = 8   # marker types T1..T8 (one per statement index)
+NTH = 16  # marker types T0..T16 of history programs (one per program step; T0: attribute missing)
+GEN = 99  # spec code of the base `Generic[T]`
+SUFFIX = {0: "", 1: "[int]", 2: "[str]", 3: "[T]"}
+TYPING_PRELUDE = ["from typing import Generic, TypeVar", 'T = TypeVar("T")']
 
 
-def c3_cfg(mc, obj, mf=None, export=False, invs=MODEL_INVS, spec="SPECIFICATION Spec"):
-  return ("%s\nCONSTANTS MaxClasses = %d\n MaxBases = 3\n AllowObject = %s\n MaxFail = %d\n"
-          " Export = %s\n" % (spec, mc, "TRUE" if obj else "FALSE", mc if mf is None else mf,
-                              "TRUE" if export else "FALSE")
+def tla_set(xs):
+  return "{%s}" % ", ".join(('"%s"' % x) if isinstance(x, str) else str(x) for x in xs)
+
+
+def c3_cfg(mc, obj, mf=None, export=False, invs=MODEL_INVS, spec="SPECIFICATION Spec", mb=3,
+           spellings=(0,), generic=False, defs=False, events=0, modes=("all",)):
+  return ("%s\nCONSTANTS MaxClasses = %d\n MaxBases = %d\n AllowObject = %s\n MaxFail = %d\n"
+          " Export = %s\n Spellings = %s\n AllowGeneric = %s\n AllowDef = %s\n MaxEvents = %d\n"
+          " Modes = %s\n" % (spec, mc, mb, "TRUE" if obj else "FALSE", mc if mf is None else mf,
+                            "TRUE" if export else "FALSE", tla_set(spellings),
+                            "TRUE" if generic else "FALSE", "TRUE" if defs else "FALSE", events,
+                            tla_set(modes))
           + "".join("INVARIANT %s\n" % i for i in invs))
 
 
+ALL_MODES = ("cls", "old", "new", "all")
 TRACE_CFG = ("INIT TInit\nNEXT TNext\nCONSTANTS MaxClasses = 1000\n MaxBases = 3\n"
-             " AllowObject = TRUE\n MaxFail = 1000\n Export = FALSE\n"
-             "INVARIANT Ok\nPOSTCONDITION Done\n")
+             " AllowObject = TRUE\n MaxFail = 1000\n Export = FALSE\n Spellings = {0, 1, 2, 3}\n"
+             " AllowGeneric = TRUE\n AllowDef = TRUE\n MaxEvents = 1000\n Modes = %s\n"
+             "INVARIANT Ok\nPOSTCONDITION Done\n" % tla_set(ALL_MODES))
 
 
 # ---------------------------------------------------------------------------------------------
@@ -87,11 +112,23 @@ def cname(p, c, mod=""):
   return "object" if c == 0 else "%s%sK%d" % (mod, p, c)
 
 
-def class_stmt(h, c, name, base_name, tname, failing, lines, where):
+def bname(p, b, mod=""):
+  """Written form of the base spelling b (spec code origin + 100 * spelling)."""
+  if b == GEN:
+    return "Generic[T]"
+  return cname(p, b % 100, mod) + SUFFIX[b // 100]
+
+
+def kind_of(h):
+  return h.get("kind", "hier")
+
+
+def class_stmt(h, c, name, base_name, tname, failing, lines, where, body=None):
   """Append class statement c; where[len(lines)+1] is its `class` line."""
   bs = h["bases"][c - 1]
   head = "class %s%s:" % (name, "(%s)" % ", ".join(base_name(b) for b in bs) if bs else "")
-  body = ["  p_%d_%d = %s" % (x, y, tname(c)) for (x, y) in pairs_of(h) if c in (x, y)]
+  if body is None:
+    body = ["  p_%d_%d = %s" % (x, y, tname(c)) for (x, y) in pairs_of(h) if c in (x, y)]
   body = body or ["  pass"]
   if failing:
     lines.append("try:")
@@ -108,14 +145,15 @@ def class_stmt(h, c, name, base_name, tname, failing, lines, where):
 def render_source(hs):
   """One module for a batch of hierarchies.  Returns (text, meta); meta[k] = dict(cls={line: c},
   reads=[(c,x,y)], rline={line: read index})."""
-  lines = ["class T%d: pass" % k for k in range(1, NT + 1)]
+  lines = list(TYPING_PRELUDE) if any(kind_of(h) == "gen" for h in hs) else []
+  lines += ["class T%d: pass" % k for k in range(1, NT + 1)]
   lines += ["t%d = T%d()" % (k, k) for k in range(1, NT + 1)]
   meta = []
   for k, h in enumerate(hs):
     p = "H%d_" % k
     m = {"cls": {}, "reads": reads_of(h), "rline": {}}
     for c in range(1, len(h["bases"]) + 1):
-      class_stmt(h, c, cname(p, c), lambda b, p=p: cname(p, b), lambda c: "t%d" % c,
+      class_stmt(h, c, cname(p, c), lambda b, p=p: bname(p, b), lambda c: "t%d" % c,
                  h["lin"][c - 1]["st"] != "ok", lines, m["cls"])
     for c in sorted({r[0] for r in m["reads"]}):
       lines.append("o_%s = %s()" % (cname(p, c), cname(p, c)))
@@ -129,12 +167,16 @@ def render_source(hs):
 
 
 def render_stub(hs):
-  lines = ["class T%d: ..." % k for k in range(1, NT + 1)]
+  gen = any(kind_of(h) == "gen" for h in hs)
+  lines = ["from typing import Generic, TypeVar", "T = TypeVar('T')"] if gen else []
+  lines += ["class T%d: ..." % k for k in range(1, NT + 1)]
   for k, h in enumerate(hs):
     p = "H%d_" % k
     for c in range(1, len(h["bases"]) + 1):
       bs = h["bases"][c - 1]
-      head = "class %s%s:" % (cname(p, c), "(%s)" % ", ".join(cname(p, b) for b in bs) if bs else "")
+      if kind_of(h) == "gen" and h["lin"][c - 1]["st"] != "ok":
+        continue   # generic family: the stub holds the classes that exist
+      head = "class %s%s:" % (cname(p, c), "(%s)" % ", ".join(bname(p, b) for b in bs) if bs else "")
       body = ["    p_%d_%d: T%d" % (x, y, c) for (x, y) in pairs_of(h) if c in (x, y)]
       if body:
         lines.append(head)
@@ -147,14 +189,15 @@ def render_stub(hs):
 def render_reader(hs, mod):
   """Reader of the stub module: uses of ill-formed stub classes, reads through stub classes,
   and source classes M_* over stub bases with the same reads."""
-  lines = ["import %s" % mod]
+  lines = list(TYPING_PRELUDE) if any(kind_of(h) == "gen" for h in hs) else []
+  lines += ["import %s" % mod]
   lines += ["t%d = %s.T%d()" % (k, mod, k) for k in range(1, NT + 1)]
   meta = []
   for k, h in enumerate(hs):
     p = "H%d_" % k
     m = {"use": {}, "cls": {}, "reads": reads_of(h), "rline": {}, "mline": {}}
     for c in range(1, len(h["bases"]) + 1):
-      if h["lin"][c - 1]["st"] != "ok":
+      if h["lin"][c - 1]["st"] != "ok" and kind_of(h) != "gen":
         m["use"][len(lines) + 1] = c
         lines.append("u_%d_%d = %s" % (k, c, cname(p, c, mod + ".")))
     rcls = sorted({r[0] for r in m["reads"]})
@@ -166,7 +209,7 @@ def render_reader(hs, mod):
       m["rline"][len(lines) + 1] = n
       lines.append("it_%d_%d = o_%s.p_%d_%d" % (k, n, cname(p, c), x, y))
     for c in range(1, len(h["bases"]) + 1):
-      class_stmt(h, c, "M_" + cname(p, c), lambda b, p=p: cname(p, b, mod + "."),
+      class_stmt(h, c, "M_" + cname(p, c), lambda b, p=p: bname(p, b, mod + "."),
                  lambda c: "t%d" % c, h["lin"][c - 1]["st"] != "ok", lines, m["cls"])
     for c in rcls:
       lines.append("om_%s = M_%s()" % (cname(p, c), cname(p, c)))
@@ -179,17 +222,125 @@ def render_reader(hs, mod):
   return "\n".join(lines) + "\n", meta
 
 
+READ_EXPR = {"cls": "%s.tag", "old": "o_%s.tag", "new": "%s().tag"}
+
+
+def modes_of(m):
+  return ["cls", "old", "new"] if m == "all" else [m]
+
+
+def render_hist(hs):
+  """One module for a batch of attribute histories.  meta[k] = dict(cls={line: statement},
+  rd={step: [(variable, line)]}).  Step s defines / assigns the marker value t<s>; a read the spec
+  answers with "no such attribute" (exp 0) is wrapped in try/except AttributeError (value t0)."""
+  lines = list(TYPING_PRELUDE)
+  lines += ["class T%d: pass" % k for k in range(0, NTH + 1)]
+  lines += ["t%d = T%d()" % (k, k) for k in range(0, NTH + 1)]
+  meta = []
+  for k, h in enumerate(hs):
+    p = "H%d_" % k
+    m = {"cls": {}, "rd": {}}
+    common.require(len(h["prog"]) <= NTH, "history longer than %d steps" % NTH)
+    c = 0
+    for s, st in enumerate(h["prog"], 1):
+      if st["op"] == "class":
+        c += 1
+        ok = h["lin"][c - 1]["st"] == "ok"
+        class_stmt(h, c, cname(p, c), lambda b, p=p: bname(p, b), None, not ok, lines, m["cls"],
+                   body=["  tag = t%d" % s] if st["def"] else ["  pass"])
+        if ok:
+          lines.append("o_%s = %s()" % (cname(p, c), cname(p, c)))
+      elif st["op"] == "assign":
+        lines.append("%s.tag = t%d" % (cname(p, st["c"]), s))
+      else:
+        m["rd"][s] = []
+        for q, mode in enumerate(modes_of(st["m"])):
+          var = "h_%d_%d_%d" % (k, s, q)
+          expr = READ_EXPR[mode] % cname(p, st["c"])
+          if st["exp"] == 0:
+            lines.append("try:")
+            m["rd"][s].append((var, len(lines) + 1))
+            lines += ["  %s = %s" % (var, expr), "except AttributeError:", "  %s = t0" % var]
+          else:
+            m["rd"][s].append((var, len(lines) + 1))
+            lines.append("%s = %s" % (var, expr))
+    meta.append(m)
+  return "\n".join(lines) + "\n", meta
+
+
+def collect_hist(res, metas, hs):
+  """Project the pytype result of a history module onto per-history observations."""
+  g = globals_of_pyi(res["pyi"])
+  attr_err, mro_err, other = set(), set(), []
+  for name, line, msg in res["errors"]:
+    if name == "mro-error":
+      mro_err.add(line)
+    elif name == "attribute-error":
+      attr_err.add(line)
+    else:
+      other.append([name, line, msg[:200]])
+  out, known = [], set()
+  for m, h in zip(metas, hs):
+    known |= set(m["cls"])
+    obs = []
+    for s in range(1, len(h["prog"]) + 1):
+      obs.append([0 if line in attr_err else definer(g.get(var, "<missing>"))
+                  for var, line in m["rd"].get(s, [])])
+      known |= {line for _, line in m["rd"].get(s, [])}
+    out.append({"mroerr": sorted(c for line, c in m["cls"].items() if line in mro_err), "obs": obs})
+  for line in sorted((mro_err | attr_err) - known):
+    other.append(["mro-or-attribute-error", line, "error on an unexpected line"])
+  return out, other
+
+
+def work_hist(hs):
+  src, meta = render_hist(hs)
+  ns = {}
+  exec(compile(src, "<c10-hist>", "exec"), ns)   # pylint: disable=exec-used
+  rs = pyt.analyze(src)
+  if rs["outcome"] != "result":
+    raise common.Machinery("pytype did not analyse the history module: %s %s" % (
+        rs["outcome"], rs["exc"] or rs["errors"]))
+  sobs, others = collect_hist(rs, meta, hs)
+  cases = []
+  for k, h in enumerate(hs):
+    st, mros = cpython_types(h)
+    py_obs = [[definer(type(ns[var]).__name__) for var, _ in meta[k]["rd"].get(s, [])]
+              for s in range(1, len(h["prog"]) + 1)]
+    prog = [{"op": x["op"], "bases": x["bases"], "def": x["def"], "c": x["c"], "m": x["m"]}
+            for x in h["prog"]]
+    cases.append({"kind": "hist", "bases": h["bases"], "prog": prog,
+                  "py": {"st": st, "mro": mros, "obs": py_obs}, "src": sobs[k]})
+  return cases, [["history"] + e for e in others]
+
+
 # ---------------------------------------------------------------------------------------------
 # CPython as the oracle of the spec
 
+_TV = None
+
+
 def cpython_types(h):
-  """type(name, bases, {}) per statement -> (st list, mro list)."""
+  """The class object CPython makes of every statement (types.new_class: type(name, bases, {})
+  after __mro_entries__ has replaced subscripted generic bases) -> (st list, mro list)."""
+  import types
+  import typing
+  global _TV
+  if _TV is None:
+    _TV = typing.TypeVar("T")
   cls = {0: object}
-  ident = {object: 0}
+  ident = {object: 0, typing.Generic: GEN}
+  args = {1: int, 2: str, 3: _TV}
+
+  def written(b):
+    if b == GEN:
+      return typing.Generic[_TV]
+    k = cls[b % 100]
+    return k if b < 100 else k[args[b // 100]]
   st, mros = [], []
   for c, bs in enumerate(h["bases"], 1):
     try:
-      k = type("K%d" % c, tuple(cls[b] for b in bs), {})
+      k = types.new_class("K%d" % c, tuple(written(b) for b in bs))
     except TypeError as e:
       msg = str(e)
       if "duplicate base class" in msg:
@@ -272,6 +423,9 @@ def work(item):
   """Worker: all observations for one batch of hierarchies.  Returns (cases, other_errors)."""
   bid, hs, sdir = item
   boot.boot()
+  kind = kind_of(hs[0])
+  if kind == "hist":
+    return work_hist(hs)
   from pytype.pytd import mro as mro_lib
   os.makedirs(sdir, exist_ok=True)
   global _serial
@@ -312,6 +466,11 @@ def work(item):
       for n, (c, x, y) in enumerate(smeta[k]["reads"]):
         py_reads.append([c, x, y, definer(type(ns["rs_%d_%d" % (k, n)]).__name__),
                          definer(type(ns["is_%d_%d" % (k, n)]).__name__)])
+      if kind == "gen":
+        cases.append({"kind": "gen", "bases": h["bases"],
+                      "py": {"st": st, "mro": mros, "reads": py_reads},
+                      "src": sobs[k], "stub": tobs[k], "mix": mobs[k]})
+        continue
       merge, pytd = [], []
       names = {"builtins.object": 0}
       for c in range(1, len(h["bases"]) + 1):
@@ -331,7 +490,7 @@ def work(item):
                                                  for t in mro_lib.GetBasesInMRO(node)]})
         except mro_lib.MROError:
           pytd.append({"ok": False, "mro": []})
-      cases.append({"bases": h["bases"],
+      cases.append({"kind": "hier", "bases": h["bases"],
                     "py": {"st": st, "mro": mros, "reads": py_reads},
                     "merge": merge, "pytd": pytd,
                     "src": sobs[k], "stub": tobs[k], "mix": mobs[k]})
@@ -349,19 +508,102 @@ def canon(h):
   return json.dumps(h["bases"], separators=(",", ":"))
 
 
+def ident(h):
+  """Identity of a case: kind + program (histories) or kind + hierarchy."""
+  if kind_of(h) == "hist":
+    return "hist:" + json.dumps([[x["op"], x["bases"], x["def"], x["c"], x["m"]] for x in h["prog"]],
+                                separators=(",", ":"))
+  return kind_of(h) + ":" + canon(h)
+
+
+def cost_of(h):
+  if kind_of(h) == "hist":
+    return 2 * len(h["prog"]) + 2 * sum(len(modes_of(x["m"])) for x in h["prog"] if x["op"] == "read") + 4
+  return 2 * len(reads_of(h)) + 4 * len(h["bases"]) + 4
+
+
 def make_batches(hs, sdir, target=260):
-  """Batches of hierarchies of roughly `target` reads each (pytype is superlinear in module size)."""
-  out, cur, w = [], [], 0
-  for h in hs:
-    cost = 2 * len(reads_of(h)) + 4 * len(h["bases"]) + 4
-    if cur and w + cost > target:
+  """Batches of hierarchies of one kind of roughly `target` reads each (pytype is superlinear in
+  module size)."""
+  out = []
+  for kind in ("hier", "gen", "hist"):
+    cur, w = [], 0
+    for h in hs:
+      if kind_of(h) != kind:
+        continue
+      cost = cost_of(h)
+      if cur and w + cost > target:
+        out.append(cur)
+        cur, w = [], 0
+      cur.append(h)
+      w += cost
+    if cur:
       out.append(cur)
-      cur, w = [], 0
-    cur.append(h)
-    w += cost
-  if cur:
-    out.append(cur)
   return [(bid, b, sdir) for bid, b in enumerate(out)]
+
+
+def hist_stats(run, h):
+  """Coverage of one history (from the spec's exported expectations; not a verdict)."""
+  last = {}      # class -> (by, exp) of the latest read through it
+  lin = h["lin"]
+  for x in h["prog"]:
+    if x["op"] == "assign":
+      run.add("hist_assigns")
+    elif x["op"] == "read":
+      run.add("hist_reads")
+      c, by, exp = x["c"], x["by"], x["exp"]
+      if exp == 0:
+        run.add("hist_reads_missing")
+      if c in last and last[c][1] != exp:
+        run.add("hist_reads_answer_changed")
+        pby = last[c][0]
+        mro = lin[c - 1]["mro"]
+        if pby and by and by != pby and mro.index(by) < mro.index(pby):
+          # read, then `tag` appears on a class EARLIER in the MRO than the previous answer, read again
+          run.add("hist_reads_shadowed_after_read")
+        if pby == 0 and by:
+          run.add("hist_reads_found_after_missing")
+      last[c] = (by, exp)
+
+
+def gen_stats(run, h):
+  for bs, l in zip(h["bases"], h["lin"]):
+    sub = [b for b in bs if b != GEN and b >= 100]
+    if not sub:
+      continue
+    if l["st"] == "ok":
+      run.add("gen_ok_statements_subscripted")
+    elif l["st"] == "order":
+      run.add("gen_order_statements_subscripted")
+    else:
+      run.add("gen_dup_statements_subscripted")
+      orig = [b % 100 for b in bs]
+      if any(orig[x] == orig[y] and bs[x] != bs[y] for x in range(len(bs)) for y in range(x)):
+        run.add("gen_dup_mixed_spellings")   # same class twice under DIFFERENT spellings
+
+
+def describe(c, rec, clause, arg):
+  """Human-readable account of one failing clause (data: the case and TLC's BAD record)."""
+  level, what = clause.split(":", 1)
+  if what in ("stale-read-after-assign", "history-read"):
+    step = rec["hist"][arg - 1]
+    prog = " ; ".join(
+        ("class K%d(%s)%s" % (sum(1 for y in c["prog"][:n + 1] if y["op"] == "class"),
+                              ",".join(bname("", b) for b in x["bases"]), " tag=t%d" % (n + 1) if x["def"] else ""))
+        if x["op"] == "class" else
+        ("K%d.tag=t%d" % (x["c"], n + 1)) if x["op"] == "assign" else
+        ("read[%s] K%d.tag" % (x["m"], x["c"]))
+        for n, x in enumerate(c["prog"]))
+    exp = ("the definition of step %d on K%d (first class of the MRO whose dictionary has `tag` now)"
+           % (step["exp"], step["by"])) if step["exp"] else "no definition (AttributeError)"
+    return ("%s at step %d of history [%s]: read of `tag` through K%d (%s) observed markers %s "
+            "(0 = attribute-error, -1 = other type) but CPython and the spec find %s%s" % (
+                clause, arg, prog, step["c"], step["m"], c[level]["obs"][arg - 1], exp,
+                "; the observed value is what an EARLIER read through the same class had found "
+                "(stale answer after a later assignment on the MRO)"
+                if what == "stale-read-after-assign" else ""))
+  detail = c[level]["reads"][arg - 1] if what.endswith("-read") else arg
+  return "%s on hierarchy %s: %s (spec linearisation by TLC)" % (clause, canon(c), detail)
 
 
 def judge(run, hs, procs=8):
@@ -378,17 +620,23 @@ def judge(run, hs, procs=8):
     run.add("pytype_wall_s", round(time.time() - t0, 1))
   finally:
     shutil.rmtree(sdir, ignore_errors=True)
-  lins = {canon(h): h["lin"] for h in hs}
+  byid = {ident(h): h for h in hs}
   cases = []
   for cs, others in results:
     cases += cs
     for o in others:
       run.diverge({"unexpected-error": o})
-  run.add("pytype_modules", 2 * len(items))
-  run.add("reads_judged", sum(2 * (len(c["src"]["reads"]) + len(c["stub"]["reads"])
-                                   + len(c["mix"]["reads"])) for c in cases))
-  run.add("statements_err", sum(1 for c in cases for s in c["py"]["st"] if s != "ok"))
-  run.add("statements_ok", sum(1 for c in cases for s in c["py"]["st"] if s == "ok"))
+  run.add("pytype_modules", sum(1 if kind_of(it[1][0]) == "hist" else 2 for it in items))
+  for c in cases:
+    run.add("cases_" + c["kind"])
+    if c["kind"] == "hist":
+      run.add("hist_reads_judged", sum(len(o) for o in c["src"]["obs"]))
+      continue
+    n = 2 * (len(c["src"]["reads"]) + len(c["stub"]["reads"]) + len(c["mix"]["reads"]))
+    run.add("reads_judged" if c["kind"] == "hier" else "gen_reads_judged", n)
+    if c["kind"] == "hier":
+      run.add("statements_err", sum(1 for s in c["py"]["st"] if s != "ok"))
+      run.add("statements_ok", sum(1 for s in c["py"]["st"] if s == "ok"))
   # TLC verdicts, in chunks (JSON size) on up to 4 JVMs
   chunk = 4000
   parts = [cases[k:k + chunk] for k in range(0, len(cases), chunk)]
@@ -407,23 +655,30 @@ def judge(run, hs, procs=8):
     run.add("trace_states", distinct)
     if oracle:
       rec = oracle[0]
-      raise common.Machinery("spec disagrees with CPython on %s: %s" % (
-          json.dumps(cases[off + rec["i"] - 1]["bases"]), rec["fails"]))
+      c = cases[off + rec["i"] - 1]
+      raise common.Machinery("spec disagrees with CPython on %s %s: %s" % (
+          c["kind"], json.dumps(c.get("prog") or c["bases"]), rec["fails"]))
     for rec in bad:
       c = cases[off + rec["i"] - 1]
+      h = byid[ident(c)]
       for clause, arg in rec["fails"]:
         level, what = clause.split(":", 1)
         if what == "duplicate-direct-base":
           key = "C10:duplicate-direct-base:" + level
-          msg = ("no MRO error for statement %d of hierarchy %s (bases repeat; CPython: "
-                 "TypeError duplicate base class) at level %s" % (arg, canon(c), level))
+          msg = ("no MRO error for statement %d of hierarchy %s (bases repeat%s; CPython: "
+                 "TypeError duplicate base class) at level %s" % (
+                     arg, canon(c), " as %s" % ", ".join(bname("", b) for b in c["bases"][arg - 1])
+                     if c["kind"] != "hier" else "", level))
           run.add("dupbase_" + level)
         else:
           key = "C10:%s" % clause
-          detail = c[level]["reads"][arg - 1] if what.endswith("-read") else arg
-          msg = "%s on hierarchy %s: %s (spec linearisation by TLC)" % (clause, canon(c), detail)
-        run.violation(key, msg, {"hier": {"bases": c["bases"], "lin": lins[canon(c)]}, "clause": clause, "arg": arg,
-                                 "observed": {k: c[k] for k in ("merge", "pytd", "src", "stub", "mix")}})
+          msg = describe(c, rec, clause, arg)
+        hier = {"kind": c["kind"], "bases": c["bases"], "lin": h["lin"]}
+        if c["kind"] == "hist":
+          hier["prog"] = h["prog"]
+        run.violation(key, msg, {"hier": hier, "clause": clause, "arg": arg,
+                                 "observed": {k: c[k] for k in ("merge", "pytd", "src", "stub", "mix")
+                                              if k in c}})
   return len(cases)
 
 
@@ -433,6 +688,18 @@ def lin_of(bases):
   is still TLC's."""
   st, mros = cpython_types({"bases": bases})
   return [{"st": s if s in ("ok", "dup", "order") else "order", "mro": m} for s, m in zip(st, mros)]
+
+
+def tag_kind(cases, kind):
+  """Cases exported by TLC -> driver records of one kind (hist keeps the program, the others only
+  the hierarchy: replaying the class statements alone is a behaviour of the spec as well)."""
+  out = []
+  for h in cases:
+    r = {"kind": kind, "bases": h["bases"], "lin": h["lin"]}
+    if kind == "hist":
+      r["prog"] = h["prog"]
+    out.append(r)
+  return out
 
 
 def main():
@@ -445,20 +712,38 @@ def main():
   if a.replay:
     with open(a.replay) as f:
       case = json.load(f)["case"]
-    bases = case["hier"]["bases"]
-    n = judge(run, [{"bases": bases, "lin": case["hier"].get("lin") or lin_of(bases)}])
+    hier = case["hier"]
+    bases = hier["bases"]
+    h = {"kind": hier.get("kind", "hier"), "bases": bases, "lin": hier.get("lin") or lin_of(bases)}
+    if h["kind"] == "hist":
+      h["prog"] = hier["prog"]
+    n = judge(run, [h])
     run.put("traces_validated_against_impl", n)
     run.put("states", 1); run.put("transitions", 1); run.sample({"bases": bases})
     return run.finish()
   thorough = run.tier == "thorough"
   # 1-3. TLC: (a) the design - C3 laws on every reachable hierarchy and every intermediate merge
   # state; (b) export of every finished hierarchy; (c) larger hierarchies from the spec's
-  # generator (tlc -simulate).  The five TLC jobs run side by side.
+  # generator (tlc -simulate).  The TLC jobs run side by side.
   fams = [("plain", 5 if thorough else 4, False), ("explicit-object", 4 if thorough else 3, True)]
   nsim = 3000 if thorough else 250
+  # (d) generic bases under several spellings and (e) attribute histories: small bounds
+  # exhaustively (all model invariants and the export in one run), larger ones simulated (one
+  # simulation with both dimensions switched on; every behaviour gives a gen and a hist case)
+  sp = (0, 1, 2, 3)
+  xfams = [("gen", "generic-bases", dict(mc=2, obj=False, mb=3, spellings=sp, generic=True))]
+  if thorough:
+    xfams += [("gen", "generic-bases-3", dict(mc=3, obj=False, mb=2, spellings=sp, generic=True)),
+              ("hist", "histories-2x4", dict(mc=2, obj=False, mf=0, mb=2, defs=True, events=4)),
+              ("hist", "histories-3x3", dict(mc=3, obj=False, mf=0, mb=2, defs=True, events=3))]
+  else:
+    xfams += [("hist", "histories-2x3", dict(mc=2, obj=False, mf=0, mb=2, defs=True, events=3))]
+  nxsim = 2500 if thorough else 300
+  xsim = dict(mc=5, obj=True, mf=2, mb=3, spellings=sp, generic=True, defs=True, events=6,
+              modes=ALL_MODES)
   import concurrent.futures as cf
   jobs = {}
-  with cf.ThreadPoolExecutor(max_workers=5) as ex:
+  with cf.ThreadPoolExecutor(max_workers=9) as ex:
     for label, mc, obj in fams:
       jobs["model", label] = ex.submit(tlc.run, "C3", c3_cfg(mc, obj), workers=8 if thorough else 4,
                                        timeout=3000, seed=run.seed)
@@ -467,6 +752,12 @@ def main():
     jobs["sim", "sim"] = ex.submit(tlc.run, "C3", c3_cfg(8, True, mf=2, export=True, invs=("ExportInv",)),
                                    workers=1, timeout=3000, seed=run.seed + 1,
                                    simulate="num=%d" % nsim, depth=200)
+    for kind, label, kw in xfams:
+      jobs["x", label] = ex.submit(tlc.run, "C3", c3_cfg(export=True, invs=MODEL_INVS + ("ExportInv",), **kw),
+                                   workers=1, timeout=3000, seed=run.seed, heap="6g")
+    jobs["xsim", "xsim"] = ex.submit(tlc.run, "C3", c3_cfg(export=True, invs=("ExportInv",), **xsim),
+                                     workers=1, timeout=3000, seed=run.seed + 2,
+                                     simulate="num=%d" % nxsim, depth=200)
   states = trans = 0
   for label, mc, obj in fams:
     r = jobs["model", label].result()
@@ -476,44 +767,92 @@ def main():
     trans += r.generated
     run.put("model_states_" + label, r.distinct)
     run.add("tlc_model_wall_s", round(r.wall, 1))
-  run.put("states", states)
-  run.put("transitions", trans)
-  run.put("model_bounds", {"plain": fams[0][1], "explicit-object": fams[1][1], "MaxBases": 3})
   seen = {}
+
+  def take(hs):
+    n0 = len(seen)
+    for h in hs:
+      seen.setdefault(ident(h), h)
+    return len(seen) - n0
   for label, mc, obj in fams:
     r = jobs["export", label].result()
-    n0 = len(seen)
-    for h in r.cases:
-      seen.setdefault(canon(h), h)
+    n = take(tag_kind(r.cases, "hier"))
     run.add("tlc_export_wall_s", round(r.wall, 1))
-    run.put("hierarchies_" + label, len(seen) - n0)
-    common.require(len(seen) - n0 > 300, "family %s exported only %d hierarchies" % (label, len(seen) - n0))
+    run.put("hierarchies_" + label, n)
+    common.require(n > 300, "family %s exported only %d hierarchies" % (label, n))
   run.put("exhaustive", True)
   r = jobs["sim", "sim"].result()
-  n0 = len(seen)
-  for h in r.cases:
-    seen.setdefault(canon(h), h)
+  n = take(tag_kind(r.cases, "hier"))
   run.add("tlc_export_wall_s", round(r.wall, 1))
-  run.put("hierarchies_simulated", len(seen) - n0)
-  common.require(len(seen) - n0 > nsim // 2, "simulation produced %d hierarchies" % (len(seen) - n0))
+  run.put("hierarchies_simulated", n)
+  common.require(n > nsim // 2, "simulation produced %d hierarchies" % n)
+  for kind, label, kw in xfams:
+    r = jobs["x", label].result()
+    if r.violated or not r.ok:
+      raise common.Machinery("C3.tla (%s) violates %s:\n%s" % (label, r.violated, (r.error_trace or r.out)[-3000:]))
+    states += r.distinct
+    trans += r.generated
+    run.put("model_states_" + label, r.distinct)
+    run.add("tlc_model_wall_s", round(r.wall, 1))
+    n = take(tag_kind(r.cases, kind))
+    run.put("cases_exported_" + label, n)
+    common.require(n >= 100, "family %s exported only %d cases" % (label, n))
+  r = jobs["xsim", "xsim"].result()
+  run.add("tlc_export_wall_s", round(r.wall, 1))
+  ng = take(tag_kind(r.cases, "gen"))
+  nh = take(tag_kind(r.cases, "hist"))
+  run.put("simulated_generic", ng)
+  run.put("simulated_histories", nh)
+  common.require(ng > nxsim // 2 and nh > nxsim // 2,
+                 "simulation produced %d generic hierarchies, %d histories" % (ng, nh))
+  run.put("states", states)
+  run.put("transitions", trans)
+  run.put("model_bounds", {"plain": fams[0][1], "explicit-object": fams[1][1], "MaxBases": 3,
+                           "extended": {label: kw for _, label, kw in xfams}, "simulated-extended": xsim})
   hs = list(seen.values())
+  for h in hs:
+    if kind_of(h) == "hist":
+      hist_stats(run, h)
+    elif kind_of(h) == "gen":
+      gen_stats(run, h)
   n = judge(run, hs, procs=8)
   run.put("traces_validated_against_impl", n)
   run.put("evaluations", n)
-  nontriv = sum(1 for h in hs if any(len(set(b)) >= 2 for b in h["bases"]))
+  nontriv = sum(1 for h in hs if kind_of(h) == "hier" and any(len(set(b)) >= 2 for b in h["bases"]))
   run.put("distinct_nontrivial", nontriv)
-  run.put("rule", "one case = one hierarchy (sequence of class statements) observed at 6 levels; "
-          "non-trivial = some statement has >= 2 distinct bases")
-  run.sample({"hierarchy": hs[len(hs) // 2]["bases"], "lin": hs[len(hs) // 2]["lin"]})
+  run.put("rule", "one case = one hierarchy (sequence of class statements) observed at 6 levels, or one "
+          "hierarchy with generic base spellings (4 levels), or one attribute history (class statements, "
+          "assignments, reads; source level); non-trivial = plain hierarchy in which some statement has "
+          ">= 2 distinct bases")
+  mid = [h for h in hs if kind_of(h) == "hier"]
+  run.sample({"hierarchy": mid[len(mid) // 2]["bases"], "lin": mid[len(mid) // 2]["lin"]})
+  for kind in ("gen", "hist"):
+    xs = [h for h in hs if kind_of(h) == kind]
+    run.sample({"kind": kind, "bases": xs[len(xs) // 2]["bases"], "prog": xs[len(xs) // 2].get("prog", [])})
   common.require(run.cov["statements_err"] > 200 and run.cov["statements_ok"] > 1000
                  and run.cov["reads_judged"] > 10000 and nontriv > 300,
                  "vacuity: too few failing/succeeding statements or reads")
+  g = run.cov.get
+  common.require(g("gen_dup_mixed_spellings", 0) >= 60 and g("gen_ok_statements_subscripted", 0) >= 100
+                 and g("gen_reads_judged", 0) >= 1000,
+                 "vacuity (generic bases): %s mixed-spelling duplicates, %s subscripted ok statements, %s reads"
+                 % (g("gen_dup_mixed_spellings", 0), g("gen_ok_statements_subscripted", 0), g("gen_reads_judged", 0)))
+  common.require(g("hist_reads_shadowed_after_read", 0) >= 20 and g("hist_reads_answer_changed", 0) >= 100
+                 and g("hist_reads_found_after_missing", 0) >= 20 and g("hist_reads_judged", 0) >= 1500,
+                 "vacuity (histories): %s shadowed-after-read, %s changed answers, %s found-after-missing, "
+                 "%s reads" % (g("hist_reads_shadowed_after_read", 0), g("hist_reads_answer_changed", 0),
+                               g("hist_reads_found_after_missing", 0), g("hist_reads_judged", 0)))
   run.assumptions += [
-      "classes are plain (no metaclasses, generics, __slots__ or __mro_entries__); object is implicit "
-      "or written explicitly",
+      "classes are plain or generic in one type variable (no metaclasses, __slots__, protocols); object is "
+      "implicit or written explicitly; generic bases are written K, K[int], K[str] or K[T]; Generic[T] is "
+      "written last in a list of bases (CPython's __mro_entries__ drops a Generic[...] that is followed by "
+      "another subscripted base; that rule is not modelled)",
       "attribute order is observed pairwise: for every pair of classes an attribute defined by "
       "exactly those two, read through every class/instance that inherits it",
-      "ill-formed stub classes: the MRO error is expected where the reader first uses the class"]
+      "ill-formed stub classes: the MRO error is expected where the reader first uses the class",
+      "attribute histories are straight-line module code on one attribute: class bodies, `K.tag = v` on "
+      "existing classes and reads through a class, an instance made right after the class statement, or a "
+      "fresh instance; no `del`, no instance attributes, no assignments under control flow; source level only"]
   return run.finish()
 
 
